@@ -95,6 +95,7 @@ func cmdCheck(args []string) int {
 	verif := fs.String("verif", "/verif", "verif dir (evidence, known findings)")
 	overlay := fs.String("overlay", "", "internal: file=replacement pairs (comma separated) analysed in memory instead of the on-disk file")
 	noMut := fs.Bool("no-mutants", false, "thorough tier: skip the mutant sensitivity self-test")
+	recBase := fs.Bool("record-baseline", false, "maintenance: record fingerprints of every resolved rule subject into <verif>/baseline/fingerprints.json")
 	fs.Parse(args)
 	if *tier != "quick" && *tier != "thorough" {
 		*tier = "quick"
@@ -115,6 +116,8 @@ func cmdCheck(args []string) int {
 		}
 	}
 	start := time.Now()
+	recordBase = *recBase
+	verifDirG = *verif
 	ov := map[string][]byte{}
 	if *overlay != "" {
 		for _, kv := range strings.Split(*overlay, ",") {
@@ -139,6 +142,9 @@ func cmdCheck(args []string) int {
 		c := &Ctx{P: P, Prop: id, Tier: *tier}
 		registry[id].Run(c)
 		extra := map[string]interface{}{"load_s": P.LoadS}
+		if len(renamesSeen) > 0 {
+			extra["subjects_resolved_by_fingerprint"] = renamesSeen
+		}
 		if *tier == "thorough" && !*noMut && *overlay == "" {
 			runMutants(c, *repo, *verif, extra)
 		}
@@ -154,6 +160,13 @@ func cmdCheck(args []string) int {
 		if e == 1 || (e == 2 && exit == 0) {
 			exit = e
 		}
+	}
+	if *recBase {
+		if err := writeRecordedBaseline(*verif); err != nil {
+			fmt.Println("cannot write baseline:", err)
+			return 2
+		}
+		fmt.Printf("baseline: %d functions, %d fields recorded\n", len(recorded.Funcs), len(recorded.Fields))
 	}
 	return exit
 }
